@@ -22,7 +22,7 @@ PROP = dict(
     extra=[lambda run: run.storage_histories("C03")],
     technique="run-time refinement check of the real back ends against a reference list over random histories (bounded); "
               "with the sqlite methods proved against contracts over the table state (SQL text parsed from the source)",
-    explanation="deductive (sqlite): a stored event is returned by a windowed read exactly when its time span meets the window, as INSTANTS (closed interval, open-ended bounds included), and then with its own instant and duration: contracts.sqlite.stored_event_in_window, a lemma over the contracts of insert_one and get_events and the floating-point lemmas F3 / F5 (the encoding of an instant is within half a microsecond of it, hence strictly increasing, and decodes exactly). At the level of the stored floats: get_events returns exactly the live events of the bucket with endtime >= start bound and starttime <= end bound, in (starttime, endtime, id) descending order, all of them unless a positive limit is reached, in which case the omitted ones all come after every returned one; limit 0 returns nothing; get_eventcount counts exactly those rows. Bucket.get is proved to hand the storage the caller's window widened to whole milliseconds (start rounded down, end rounded down plus one millisecond: lemma F1 for int(microsecond / 1000)), so that nothing intersecting the caller's window is missed, and to return exactly the storage's answer for that window. deductive (memory): get_events returns fresh copies of stored events that intersect the window, newest first, at most `limit` of them, none for limit 0 (that none is missing is only bounded for this back end); get_eventcount is exact. " 
+    explanation="deductive (sqlite): a stored event is returned by a windowed read whenever its time span reaches into the window by at least a millisecond, and only if it comes within a millisecond of it, as INSTANTS (open-ended bounds included; between the two the property leaves the answer open: 'only events within about 2 ms of an edge may go either way'), and then with its own instant and duration: contracts.sqlite.stored_event_in_window, a lemma over the contracts of insert_one and get_events and the floating-point lemmas F3 / F5 (the encoding of an instant is within half a microsecond of it, hence strictly increasing, and decodes exactly). At the level of the stored floats: get_events returns only live events of the bucket that may be in the window (within 500 us of it: may_window) and every one that must be (reaching at least 500 us into it: must_window; real_plus is exact real addition), in (starttime, endtime, id) descending order, all of them unless a positive limit is reached, in which case the omitted ones all come after every returned one; limit 0 returns nothing; get_eventcount is positive if some row must be in the window and zero if none may be. Bucket.get is proved to hand the storage the caller's window widened to whole milliseconds (start rounded down, end rounded down plus one millisecond: lemma F1 for int(microsecond / 1000)), so that nothing intersecting the caller's window is missed, and to return exactly the storage's answer for that window. deductive (memory): get_events returns fresh copies of stored events, each the copy of the stored event the ghost maps of the sort / reversal / filters name and inside the window (may_win), newest first, at most `limit` of them, none for limit 0, and none that must be in the window (must_win) is missing unless a positive limit was reached and it lies beyond it; get_eventcount counts at least the events that must and at most those that may be in the window. The two predicates instead of the closed-interval test of the code: a change that opens or closes an edge stays within what the property allows and is not reported. "
                 "bounded: random bucket contents (overlapping, nested, adjacent, zero-length events) and random windows (open-ended, zero-width, sub-millisecond) and limits on the three back ends: every event strictly inside (beyond 2 ms of an edge) must be returned and none strictly outside, ordered by timestamp descending, a positive limit keeps the newest, the count agrees within the same tolerance, peewee's results are the stored events cut to the window.",
 )
 
@@ -32,12 +32,19 @@ FM = "/repo/aw_datastore/storages/memory.py"
 MUTANTS = [
     (FM, '        events = sorted(events, key=lambda k: k["timestamp"])[::-1]', '        events = sorted(events, key=lambda k: k["timestamp"])', True),   # oldest first
     (FM, '            events = [e for e in events if starttime <= (e.timestamp + e.duration)]', '            events = [e for e in events if starttime <= e.timestamp]', True),   # window start tested against the start
+    (FM, '            events = [e for e in events if starttime <= (e.timestamp + e.duration)]', '            events = [e for e in events if starttime < (e.timestamp + e.duration)]', False),   # memory: an event ending exactly at the window start is dropped - within the edge tolerance the property allows
+    (FM, '            events = [e for e in events if e.timestamp <= endtime]', '            events = [e for e in events if e.timestamp < endtime]', False),   # memory: an event starting exactly at the window end is dropped - within the edge tolerance
+    (FM, '            events = [e for e in events if e.timestamp <= endtime]', '            events = [e for e in events if e.timestamp + e.duration <= endtime]', True),   # memory: events straddling the window end are dropped
+    (FM, '        events = events[:limit]\n', '        events = events[1:limit]\n', True),   # memory: the newest event is dropped
+    (FM, '        events = events[:limit]\n', '        events = events[:limit - 1]\n', True),   # memory: one event short of the limit
+    (FM, '        elif limit < 0:\n            limit = sys.maxsize', '        elif limit < 0:\n            limit = 1000', True),   # memory: "all" capped
     (FM, '                if (not starttime or starttime <= (e.timestamp + e.duration))', '                if (not starttime or starttime <= e.timestamp)', True),   # count ignores straddling events (the defect fixed in 36426f8)
     (FD, '            milliseconds = 1 + int(endtime.microsecond / 1000)', '            milliseconds = int(endtime.microsecond / 1000)', True),   # window end rounded down: events in the last millisecond are missed
     (FD, '                microsecond=1000 * int(starttime.microsecond / 1000)', '                microsecond=1000 * (1 + int(starttime.microsecond / 1000)) % 1000000', True),   # window start rounded up
     (FD, '            second_offset = int(milliseconds / 1000)  # usually 0, rarely 1', '            second_offset = 0', True),   # overflow into the next second lost
     (FD, '        return self.ds.storage_strategy.get_events(\n            self.bucket_id, limit, starttime, endtime\n        )', '        return self.ds.storage_strategy.get_events(\n            self.bucket_id, limit, endtime, starttime\n        )', True),   # bounds swapped
-    (F, '            AND endtime >= ? AND starttime <= ?\n', '            AND endtime > ? AND starttime <= ?\n', True),   # window lower bound exclusive
+    (F, '            AND endtime >= ? AND starttime <= ?\n', '            AND endtime > ? AND starttime <= ?\n', True),   # window lower bound exclusive: tolerated at a given edge, but with no start bound (0 is passed) an event ending exactly at the epoch is lost
+    (F, '            AND endtime >= ? AND starttime <= ?\n', '            AND endtime >= ? AND starttime < ?\n', False),   # window upper bound exclusive: within the edge tolerance the property allows (the open-ended bound is 2**63-1)
     (F, '            AND endtime >= ? AND starttime <= ?\n', '            AND starttime >= ? AND starttime <= ?\n', True),   # window tests start only
     (F, '            ORDER BY starttime DESC, endtime DESC, id DESC LIMIT ?\n', '            ORDER BY starttime ASC, endtime DESC, id DESC LIMIT ?\n', True),   # oldest first
     (F, '            ORDER BY starttime DESC, endtime DESC, id DESC LIMIT ?\n', '            ORDER BY endtime DESC, starttime DESC, id DESC LIMIT ?\n', True),   # order by end first
